@@ -1,6 +1,6 @@
 """A6/A9: specialised reachability over the workspace call graph (closures included) and the
 effect sites (storage accesses, message constructions) inside the reachable region."""
-from .expr import E, find
+from .expr import E, find, callee_key
 
 
 class Visit:
@@ -116,6 +116,9 @@ def call_sites(sem, visits, pred):
             if blk.idx in v.blocks:
                 e = v.be.ev_call(blk.idx, blk.term)
                 if e.op == "call" and pred(e.info):
+                    out.append((v, blk.idx, v.resolve(e)))
+                elif e.op == "bin" and pred(callee_key(blk.term.callee)):
+                    # operator traits are modelled as bin nodes: matched by the trait method's key
                     out.append((v, blk.idx, v.resolve(e)))
     return out
 
